@@ -207,7 +207,23 @@ Record order_pair := OrderPair {
   o_pos : string
 }.
 
+(** One acquisition site with EVERYTHING held there (round 4), abstract locks
+    included: an abstract lock stands for an external blocking resource, e.g.
+    "stats.StatsCtx.db.writer" for bbolt's single-writer lock of the statistics
+    database, held from db.Begin(true) to tx.Commit() / tx.Rollback()
+    (Gen/LockTableAcq.v lists them with what they stand for). *)
+Record acq_site := AcqSite {
+  s_root : string;
+  s_fn : string;
+  s_held : held;          (* all locks held while ... *)
+  s_acq : lock * mode;    (* ... this one is acquired *)
+  s_pos : string
+}.
+
 (** Stable name of an access site for KNOWN_FINDINGS.txt: field@function. *)
 Definition access_key (a : access) : string := a_field a ++ "@" ++ a_fn a.
 Definition order_key (o : order_pair) : string :=
   fst (o_held o) ++ "<" ++ fst (o_acq o) ++ "@" ++ o_fn o.
+(** the pair keys of an acquisition site: one per held lock, spelt like [order_key] *)
+Definition site_keys (s : acq_site) : list string :=
+  map (fun y => fst y ++ "<" ++ fst (s_acq s) ++ "@" ++ s_fn s) (s_held s).
